@@ -448,12 +448,13 @@ func runC16(ctx *core.Ctx, pool *par.Pool) {
 	var total xstate.Stats
 	images, distinct, states := 0, 0, 0
 	outcomes := map[string]int{}
-	full := ctx.Deadline
+	share := ctx.Budget() / time.Duration(len(cfgs))
 	for _, cfg := range cfgs {
 		cfg := cfg
 		var quiet []*xstate.Node
 		seenLog := map[string]bool{}
-		ctx.Deadline = ctx.Start.Add(full.Sub(ctx.Start) / 3)
+		endRun := ctx.Phase(share)
+		endBFS := ctx.Phase(share * 3 / 10)
 		d := depth
 		if cfg.PageSize > 4096 { // every page size the header search has to find; images are large, few states suffice
 			d = 4
@@ -468,7 +469,7 @@ func runC16(ctx *core.Ctx, pool *par.Pool) {
 					}
 				}
 			}})
-		ctx.Deadline = full
+		endBFS()
 		total.States += st.States
 		total.Transitions += st.Transitions
 		ctx.Set("depth_"+cfg.Name, st.Depth)
@@ -516,6 +517,7 @@ func runC16(ctx *core.Ctx, pool *par.Pool) {
 		if skipped > 0 {
 			ctx.Cap("cfg %s: deadline reached, %d of %d images not corrupted", cfg.Name, skipped, len(tasks))
 		}
+		endRun()
 	}
 	ctx.Set("states", total.States)
 	ctx.Set("transitions", total.Transitions)
